@@ -402,4 +402,78 @@ example (a b c : K) : fMedian [c, a, b] = fMedian [a, b, c] :=
   (perm_invariant [c, a, b] [a, b, c] (by simpa using (List.perm_append_comm (l₁ := [c]) (l₂ := [a, b])))).2.2.2.2.2.2
     sortAsc sortAsc_spec pMedian
 
+/-! ### the order-free quantile predicate evaluated on the implementation holds of the model -/
+
+theorem countLe_sorted (ys : List K) (hs : ys.Pairwise (· ≤ ·)) (k : ℕ) (hk : k < ys.length) :
+    k + 1 ≤ countLe ys ys[k] := by
+  induction ys generalizing k with
+  | nil => simp at hk
+  | cons y ys ih =>
+    have hy := List.pairwise_cons.mp hs
+    cases k with
+    | zero => simp [countLe]
+    | succ k =>
+      have hk' : k < ys.length := by simpa using hk
+      have h1 := ih hy.2 k hk'
+      have hle : y ≤ ys[k] := hy.1 _ (List.getElem_mem hk')
+      simp only [List.getElem_cons_succ, countLe, List.countP_cons, Exact.le_eq, hle, decide_true, ↓reduceIte] at h1 ⊢
+      omega
+
+theorem countLt_sorted (ys : List K) (hs : ys.Pairwise (· ≤ ·)) (k : ℕ) (hk : k < ys.length) :
+    countLt ys ys[k] ≤ k := by
+  induction ys generalizing k with
+  | nil => simp at hk
+  | cons y ys ih =>
+    have hy := List.pairwise_cons.mp hs
+    cases k with
+    | zero =>
+      have : List.countP (fun x => Scalar.lt x y) ys = 0 := by
+        rw [List.countP_eq_zero]
+        intro z hz
+        simpa using hy.1 z hz
+      simpa [countLt] using hy.1
+    | succ k =>
+      have hk' : k < ys.length := by simpa using hk
+      have h1 := ih hy.2 k hk'
+      simp only [List.getElem_cons_succ, countLt, List.countP_cons] at h1 ⊢
+      split <;> omega
+
+/-- **C19 (order-free form of the quantile).** For `0 < p ≤ 1`, any sorting routine that returns a sorted permutation
+    and any non-empty series in any order, the value returned by the quantile accessor satisfies the order-free
+    predicate `IsQuantileOf` (the one the driver evaluates on the implementation's results): it is an element of the
+    series, at least `p·n` elements are `≤` it and fewer than `p·n` elements are `<` it. -/
+theorem quantile_isQuantileOf (sort : List K → List K) (hsort : ∀ xs, (sort xs).Perm xs ∧ (sort xs).Pairwise (· ≤ ·))
+    (p : K) (hp0 : 0 < p) (hp1 : p ≤ 1) (xs : List K) (hne : xs ≠ []) :
+    ∃ v, fQuantileWith sort p xs = .ok (some v) ∧ IsQuantileOf p xs v = true := by
+  obtain ⟨k, hk, hq, h1, h2⟩ := quantile_rank sort hsort p hp1 xs hne
+  obtain ⟨hperm, hsorted⟩ := hsort xs
+  refine ⟨_, hq, ?_⟩
+  have hmem : (sort xs)[k] ∈ xs := hperm.subset (List.getElem_mem hk)
+  have hle : k + 1 ≤ countLe xs (sort xs)[k] := by
+    have := countLe_sorted (sort xs) hsorted k hk
+    simpa [countLe, hperm.countP_eq] using this
+  have hlt : countLt xs (sort xs)[k] ≤ k := by
+    have := countLt_sorted (sort xs) hsorted k hk
+    simpa [countLt, hperm.countP_eq] using this
+  have hnpos : (0 : K) < (xs.length : K) := by
+    have : 0 < xs.length := List.length_pos_of_ne_nil hne
+    exact_mod_cast this
+  simp only [IsQuantileOf, Bool.and_eq_true, List.any_eq_true, Exact.eq_eq, decide_eq_true_eq, Exact.ge_eq, Exact.lt_eq,
+    Exact.mul_eq, Exact.ofInt_eq, Int.cast_natCast]
+  refine ⟨⟨⟨_, hmem, rfl⟩, ?_⟩, ?_⟩
+  · have : ((k + 1 : ℕ) : K) ≤ (countLe xs (sort xs)[k] : K) := by exact_mod_cast hle
+    push_cast at this
+    linarith
+  · have hc : (countLt xs (sort xs)[k] : K) ≤ (k : K) := by exact_mod_cast hlt
+    cases k with
+    | zero =>
+      have : (countLt xs (sort xs)[0] : K) = 0 := by
+        have : countLt xs (sort xs)[0] = 0 := by omega
+        exact_mod_cast this
+      rw [this]; positivity
+    | succ k =>
+      have := h2 k (by omega)
+      push_cast at hc
+      linarith
+
 end GoNeat.C19
